@@ -320,6 +320,76 @@ func mbLifecycle(req int) *engine.Violation {
 	return nil
 }
 
+// mbLargeRing: the BFS covers 1-8 pages; whatever the constructor does differently for large sizes (alignment to huge
+// pages, a different rounding) is covered here with one fixed walk per size: go round once, write through a claim that
+// crosses the end of the ring, go round again and read ring positions 0..7 back through a claim that starts at the
+// first mapping's first byte.
+func mbLargeRequests() []int {
+	p := syscall.Getpagesize()
+	return []int{1<<20 + p, 2<<20 - p, 2 << 20, 2<<20 + p, 3 << 20, 3<<20 + 5*p, 4<<20 + p, 16<<20 + 3*p, 64<<20 + p, 1<<30 + p}
+}
+
+func mbLargeRing(req int) *engine.Violation {
+	mb, err := sbytes.NewMirroredBuffer(req, false)
+	if err != nil {
+		engine.HarnessError("NewMirroredBuffer(%d): %v", req, err)
+	}
+	defer mb.Destroy()
+	size := mb.Size()
+	if size < req || size-req >= syscall.Getpagesize() {
+		return mbViol("mirrored.New/size", "NewMirroredBuffer(%d).Size()=%d: not the request rounded up to a page", req, size)
+	}
+	c := mb.Claim(size)
+	if len(c) != size {
+		return mbViol("mirrored.Claim/length", "size %d: Claim(size) on a new buffer returned %d bytes", size, len(c))
+	}
+	base := uintptr(unsafe.Pointer(unsafe.SliceData(c)))
+	round := func(n int) *engine.Violation {
+		if got := mb.Commit(n); got != n {
+			return mbViol("mirrored.Commit/result", "size %d: Commit(%d) = %d", size, n, got)
+		}
+		if got := mb.Consume(n); got != n {
+			return mbViol("mirrored.Consume/result", "size %d: Consume(%d) = %d", size, n, got)
+		}
+		return nil
+	}
+	if v := round(size - 8); v != nil {
+		return v
+	}
+	x := mb.Claim(16) // ring positions size-8 .. size+8: crosses the end
+	if len(x) != 16 {
+		return mbViol("mirrored.Claim/length", "size %d: Claim(16) with an empty buffer returned %d bytes", size, len(x))
+	}
+	if off := int(uintptr(unsafe.Pointer(unsafe.SliceData(x))) - base); off != size-8 {
+		return mbViol("mirrored.Claim/wrap-position", "size %d: after committing and consuming size-8 bytes the next claim starts at offset %d, not %d", size, off, size-8)
+	}
+	for i := range x {
+		x[i] = byte(0xA0 + i)
+	}
+	if v := round(16); v != nil {
+		return v
+	}
+	if v := round(size - 8); v != nil { // tail: 8 -> size -> 0
+		return v
+	}
+	y := mb.Claim(16)
+	if len(y) != 16 {
+		return mbViol("mirrored.Claim/length", "size %d: Claim(16) with an empty buffer returned %d bytes", size, len(y))
+	}
+	if off := int(uintptr(unsafe.Pointer(unsafe.SliceData(y))) - base); off != 0 {
+		return mbViol("mirrored.Claim/wrap-position", "size %d: after going round exactly twice the next claim starts at offset %d, not 0", size, off)
+	}
+	for i := 0; i < 8; i++ {
+		if y[i] != byte(0xA8+i) {
+			return mbViol("mirrored.Claim/not-mirrored", "size %d (request %d): byte %d written through a claim that crossed the end of the ring reads %#x at ring position %d (wrote %#x): the second mapping does not start Size() bytes after the first", size, req, 8+i, y[i], i, 0xA8+i)
+		}
+	}
+	if mb.UsedSpace() != 0 || mb.FreeSpace() != size {
+		return mbViol("mirrored/used-plus-free", "size %d: used %d free %d after consuming everything", size, mb.UsedSpace(), mb.FreeSpace())
+	}
+	return nil
+}
+
 // mbShmFiles lists the backing files in /dev/shm whose size is `size` (sizes used by mbFailedConstruction are
 // process-specific, so files of other processes never match).
 func mbShmFiles(size int64) []string {
@@ -471,6 +541,13 @@ func C11(tier string) *engine.Report {
 			rep.Add(*v)
 		}
 	}
+	for _, req := range mbLargeRequests() {
+		if v := mbLargeRing(req); v != nil {
+			v.Config = fmt.Sprintf("largering,request=%d", req)
+			rep.Add(*v)
+		}
+	}
+	rep.Coverage["large_rings"] = mbLargeRequests()
 	nc, vs := mbFailedConstruction()
 	for _, v := range vs {
 		rep.Add(v)
@@ -478,7 +555,7 @@ func C11(tier string) *engine.Report {
 	rep.Coverage["constructions_refused_or_huge"] = nc
 	tot.Fill(rep, "reachable states of a real MirroredBuffer per requested size (1-6/8 pages and three sizes that are rounded up) under Claim/Commit/Consume with amounts on the half-page grid, size+1 and "+
 		"at most K odd amounts {1,u+1,size-1}, and Reset, BFS to fixpoint; state = implementation integers + model (head,used) + odd amounts spent; claims are judged by address against the ring model, "+
-		"filled with tags and read back through both mappings; plus one create/use/Destroy lifecycle per size checked against /proc/self/maps and the backing file, and one destroy-A, create-B, destroy-A-again sequence per size (B keeps both mappings); plus 10 constructions with invalid, huge (2^36..2^62, refused by the kernel at the reservation or granted and destroyed) sizes checked against the descriptor census, /dev/shm and the mappings")
+		"filled with tags and read back through both mappings; plus one create/use/Destroy lifecycle per size checked against /proc/self/maps and the backing file, and one destroy-A, create-B, destroy-A-again sequence per size (B keeps both mappings); plus a fixed walk (round once, write through a claim crossing the end, round again, read ring positions 0..7 back through the first mapping) for 10 large sizes from 1 MiB + 1 page to 1 GiB + 1 page around the 2 MiB multiples; plus 10 constructions with invalid, huge (2^36..2^62, refused by the kernel at the reservation or granted and destroyed) sizes checked against the descriptor census, /dev/shm and the mappings")
 	rep.Coverage["lifecycles"] = len(mbRequests(tier))
 	return rep
 }
@@ -488,6 +565,10 @@ func C11Replay(v engine.Violation, log func(string)) *engine.Violation {
 	if strings.HasPrefix(v.Config, "destroytwice") {
 		fmt.Sscanf(v.Config, "destroytwice,request=%d", &req)
 		return mbDestroyTwice(req)
+	}
+	if strings.HasPrefix(v.Config, "largering") {
+		fmt.Sscanf(v.Config, "largering,request=%d", &req)
+		return mbLargeRing(req)
 	}
 	if strings.HasPrefix(v.Config, "lifecycle") {
 		fmt.Sscanf(v.Config, "lifecycle,request=%d", &req)
